@@ -228,7 +228,7 @@ def run(ctx):
     from .. import ffi
     ffi.rule_sig(ctx, "C03.FFI", only={"mesh_chstt"})
     ctx.floor("C03.FFI", 2)
-    from .. import truth
-    truth.rule(ctx, "C03.TRUTH", ctx.py, ["kinetics", "rdsystem"], floor=24)
+    from .. import lints
+    lints.run(ctx, "C03", ctx.py, ["kinetics", "rdsystem"], truth_floor=24)
     ctx.assume("equality with the recorded initial value is decided only as 'never written after Init' "
                "(t = 0 processing is C14)")
